@@ -136,6 +136,9 @@ def w_vacancy(arg):
             else:
                 t = data(d, rng, spread=(1.0, 2.5)[k % 2], tracer=True)
                 if first_tracer is None: first_tracer = t
+            if k == 1:
+                # every vacancy jump 1e-12 times slower (transition states 27.6 kT higher): the tracer identities are about rate ratios
+                t = dict(t, eneT0=t['eneT0'] + 27.6); t.update(d.maketracerpreene(**t)); tag = tag + ' (all rates x 1e-12)'
             L0, Lss, Lsv, L1 = L(d, t); sc = np.abs(L0).max()
             # crystals with origin states: the identity involves the integrated bias correction, so it holds to the Green-function
             # integration accuracy only (fixed constant 1e-4, the same as for the lattice equation of C10); otherwise it is algebraic
